@@ -96,4 +96,40 @@ def modelledQuoDivisors : List String := [
   "Quo totalVotingPower.Sub(results[v1.OptionAbstain])"       -- tail: yes share of the non-abstaining power
 ]
 
+/-! ## app level: every PreBlock / BeginBlock / EndBlock of an fx-core AppModule (`Gen.C07.fxAppBlockers`, regenerated from
+`app/modules.go` and `x/<module>/module.go`) must be one of the shapes below; a new blocker, or one whose body changed, makes
+`app_blockers_covered` (Props/C07) fail until it is classified — and modelled if it can fail. -/
+
+inductive BlockerTreatment where
+  | crosschainEndBlocker  -- `am.keeper.EndBlocker(sdk.UnwrapSDKContext(ctx)); return nil` on a `crosschainkeeper.Keeper`: the ONE keeper
+                          -- end-blocker `Model.C13.endBlock` models (`endBlock_total…`); the method itself never returns an error
+  | govEndBlocker         -- `return EndBlocker(sdk.UnwrapSDKContext(ctx), am.keeper)`: the gov half (`gov_sites_covered`, `gov_tally_total`,
+                          -- Props/C15 `gov_endblock_*`)
+  | evmBeginBlock         -- `return am.keeper.BeginBlock(…)`: caches `EVMBlockConfig` (reads the module's own params / chain config; the
+                          -- only error site is that read: `evm_begin_block_sites`); ethermint code behind it is dependency code
+  | promoted              -- not declared by the fx-core package: whatever the embedded dependency AppModule (SDK staking, ethermint evm)
+                          -- has is promoted — dependency code, exercised by the real FinalizeBlock runs, not modelled
+  deriving DecidableEq, Repr
+
+def crosschainEndBlockBody : List String := ["am.keeper.EndBlocker", "sdk.UnwrapSDKContext"]
+
+def blockerTreatment (b : AppBlocker) : Option BlockerTreatment :=
+  if !b.declared then (if b.embeds != "" then some .promoted else none)
+  else if b.phase == "end" && b.keeper == "crosschainkeeper.Keeper" && b.calls == crosschainEndBlockBody && b.ret == "nil" then
+    some .crosschainEndBlocker
+  else if b.phase == "end" && b.module == "gov" && b.ret == "EndBlocker(sdk.UnwrapSDKContext(ctx), am.keeper)" then some .govEndBlocker
+  else if b.phase == "begin" && b.module == "evm" && b.ret == "am.keeper.BeginBlock(sdk.UnwrapSDKContext(ctx))" then some .evmBeginBlock
+  else none
+
+/-- the fx-core modules whose EndBlock is the shared crosschain keeper end-blocker -/
+def crosschainEndBlockModules : List String :=
+  (fxAppBlockers.filter (fun b => blockerTreatment b == some .crosschainEndBlocker)).map (·.module)
+
+/-- the order list of a phase -/
+def orderOf (phase : String) : List String :=
+  if phase == "pre" then orderPreBlockers else if phase == "begin" then orderBeginBlockers else orderEndBlockers
+
+/-- the sites of x/evm `Keeper.BeginBlock` the classification above accounts for -/
+def evmBeginAccounted : List String := ["k.EVMBlockConfig"]
+
 end FxVerif.Model.C07
